@@ -3,7 +3,7 @@
 // Package verifhook provides named observation points for the verification harness.
 // With the "verif" build tag, At calls the handler registered by the harness (if any),
 // which records the order in which goroutines pass the points and may yield or sleep there
-// to widen interleaving windows. The points sit between critical sections, never inside a held lock.
+// to widen interleaving windows. The points sit between critical sections or, at most, under a shared read lock; never inside an exclusive lock.
 package verifhook
 
 import "sync/atomic"
